@@ -266,14 +266,16 @@ func edCheckC16(work bool, file string, ops []edOp) (sig, info string) {
 	if s, i := edBlocksSorted(fs, goV, work); s != "" {
 		return s + ":in-memory", i
 	}
-	// comments of kept lines
+	// comments of kept lines (on the in-memory tree: a re-parse may attach a comment followed by a blank
+	// line to a separate comment block; the texts must also be present in the formatted output)
+	_, _ = reMod, reWork
 	if work {
-		for _, u := range reWork.Use {
+		for _, u := range pre.Work.Use {
 			k, ok := kept[u.Path]
 			if !ok {
 				continue
 			}
-			if !edSubseq(k.before, edComTexts(u.Syntax.Before)) {
+			if !edSubseq(k.before, edComTexts(u.Syntax.Before)) || !edInText(k.before, out) {
 				return "c16-comments:before:setuse", u.Path
 			}
 			if !edSubseq(k.payload, edComTexts(u.Syntax.Suffix)) {
@@ -281,12 +283,12 @@ func edCheckC16(work bool, file string, ops []edOp) (sig, info string) {
 			}
 		}
 	} else {
-		for _, r := range reMod.Require {
+		for _, r := range pre.Mod.Require {
 			k, ok := kept[r.Mod.Path]
 			if !ok {
 				continue
 			}
-			if !edSubseq(k.before, edComTexts(r.Syntax.Before)) {
+			if !edSubseq(k.before, edComTexts(r.Syntax.Before)) || !edInText(k.before, out) {
 				return "c16-comments:before:" + set.Name, r.Mod.Path
 			}
 			if !edSubseq(k.payload, edSuffixPayload(r.Syntax)) {
